@@ -43,7 +43,8 @@ int_t *intCalloc(int_t n) { return alloc_model((size_t)n * sizeof(int_t), 1); }
 
 /* ---------------- numerical callees: reaching one is counted ---------------- */
 #define REACHED() (g_seq++)
-@R@ @r@lamch_(char *c) { REACHED(); return 0; }
+/* the s and c headers declare slamch_ as returning double */
+double @r@lamch_(char *c) { REACHED(); return 0; }
 int @p@gemm_(char *ta, char *tb, int *m, int *n, int *k, @T@ *alpha, @T@ *a, int *lda, @T@ *b, int *ldb, @T@ *beta, @T@ *c, int *ldc) { REACHED(); return 0; }
 int @p@trsm_(char *s, char *u, char *t, char *d, int *m, int *n, @T@ *alpha, @T@ *a, int *lda, @T@ *b, int *ldb) { REACHED(); return 0; }
 int @p@trsv_(char *u, char *t, char *d, int *n, @T@ *a, int *lda, @T@ *x, int *incx) { REACHED(); return 0; }
